@@ -128,6 +128,10 @@ def check_refs(name, text, by_name, result, all_results):
             continue   # the target did not get far enough to publish its name
         if obj not in execs and obj.replace(' ', '\\x20') not in execs:
             fails.append(f'the command must use the object name {obj!r} that {target} creates: {execs[:400]}')
+        # … once per reference (a reference that silently vanishes from the command is not resolved either)
+        nref = sum(1 for w in wanted if w[1] == target)
+        if nref > 1 and max(execs.count(obj), execs.count(obj.replace(' ', '\\x20'))) < nref:
+            fails.append(f'{nref} references to {target}, but its object name {obj!r} occurs {execs.count(obj)} time(s) in the command: {execs[:400]}')
         # … for *every* reference to it: no option may still carry the file name (a second reference to the same unit, a
         # reference next to a hand-written Requires=)
         for raw in (f' {target}:', f'source={target}', f'src={target}', f'--network {target}', f'image={target}'):   # (a bare `-v x.volume` without ':' is a container path, not a reference)
